@@ -35,6 +35,7 @@ type Engine struct {
 	workdir string
 	verbose bool
 	nextEpoch int
+	hints map[string]string
 	hdrChecked bool
 	toolErrors []string
 	conCache map[*ssa.Function]*Contract
@@ -371,6 +372,19 @@ func (e *Engine) localMods(fn *ssa.Function) (map[string]bool, []*ssa.Function, 
 				}
 				switch f := c.Value.(type) {
 				case *ssa.Function:
+					if con := e.contractFor(f); con != nil && len(con.Writes) > 0 {
+						// the callee writes only the backing arrays of the named slice arguments
+						for _, w := range con.Writes {
+							for pi, p := range f.Params {
+								if p.Name() == w && pi < len(c.Args) && !rootIsLocalAlloc(c.Args[pi], 0) {
+									if sl, ok := c.Args[pi].Type().Underlying().(*types.Slice); ok {
+										addTypeHeaps("A."+typeName(sl.Elem()), sl.Elem(), mods)
+									}
+								}
+							}
+						}
+						continue
+					}
 					callees = append(callees, f)
 				case *ssa.MakeClosure:
 					callees = append(callees, f.Fn.(*ssa.Function))
@@ -456,10 +470,19 @@ func (e *Engine) modset(fn *ssa.Function) map[string]bool {
 		if _, ok := infos[f]; ok {
 			return
 		}
-		if c := e.cs.Funcs[fnName(f)]; c != nil && c.HasMod {
+		if c := e.contractFor(f); c != nil && c.HasMod {
 			m := map[string]bool{}
 			for _, h := range c.Modifies {
 				m[h] = true
+			}
+			for _, w := range c.Writes {
+				for _, p := range f.Params {
+					if p.Name() == w {
+						if sl, ok := p.Type().Underlying().(*types.Slice); ok {
+							addTypeHeaps("A."+typeName(sl.Elem()), sl.Elem(), m)
+						}
+					}
+				}
 			}
 			infos[f] = &info{local: m}
 			order = append(order, f)
@@ -625,4 +648,28 @@ func rootIsLocal(v ssa.Value, seen map[ssa.Value]bool) bool {
 	}
 	_ = depth
 	return false
+}
+
+// inferredMods: heaps the body of fn may modify in pre-existing objects (its own declared frame ignored).
+func (e *Engine) inferredMods(fn *ssa.Function) map[string]bool {
+	out := map[string]bool{}
+	if len(fn.Blocks) == 0 {
+		return out
+	}
+	loc, callees, all := e.localMods(fn)
+	for h := range loc {
+		out[h] = true
+	}
+	if all {
+		out["*"] = true
+	}
+	for _, c := range callees {
+		if c == fn {
+			continue
+		}
+		for h := range e.modset(c) {
+			out[h] = true
+		}
+	}
+	return out
 }
